@@ -30,7 +30,12 @@ use super::peer_addr_to_ip_version_str;
 use super::request::{parse_request, RequestParseError};
 
 const REQUEST_BUFFER_SIZE: usize = 2048;
-const RESPONSE_BUFFER_SIZE: usize = 4096;
+/// Needs to fit the largest possible responses:
+/// - scrape response for as many info hashes as fit in a request buffer
+///   (66 info hashes, at most 11 + 66 * 108 bytes)
+/// - announce response with protocol.max_peers IPv6 peers, see
+///   check_response_buffer_size
+const RESPONSE_BUFFER_SIZE: usize = 8192;
 
 const RESPONSE_HEADER_A: &[u8] = b"HTTP/1.1 200 OK\r\nContent-Length: ";
 const RESPONSE_HEADER_B: &[u8] = b"        ";
@@ -38,6 +43,31 @@ const RESPONSE_HEADER_C: &[u8] = b"\r\n\r\n";
 
 static RESPONSE_HEADER: Lazy<Vec<u8>> =
     Lazy::new(|| [RESPONSE_HEADER_A, RESPONSE_HEADER_B, RESPONSE_HEADER_C].concat());
+
+/// Check that the largest announce response allowed by the configuration
+/// fits in the response buffer. Otherwise, writing such responses would fail
+/// and the connection would be closed without a response being sent.
+pub fn check_response_buffer_size(config: &Config) -> anyhow::Result<()> {
+    /// Length of bencoded announce response without any peers, with 20 digit numbers
+    const MAX_ANNOUNCE_RESPONSE_BASE_LEN: usize = 158;
+    /// Length of compact IPv6 peer
+    const MAX_PEER_LEN: usize = 18;
+
+    let max_response_len = RESPONSE_HEADER_A.len()
+        + RESPONSE_HEADER_B.len()
+        + RESPONSE_HEADER_C.len()
+        + MAX_ANNOUNCE_RESPONSE_BASE_LEN
+        + config.protocol.max_peers.saturating_mul(MAX_PEER_LEN)
+        + 2;
+
+    if max_response_len > RESPONSE_BUFFER_SIZE {
+        return Err(anyhow::anyhow!(
+            "protocol.max_peers is too large for response buffer"
+        ));
+    }
+
+    Ok(())
+}
 
 struct PendingScrapeResponse {
     pending_worker_responses: usize,
